@@ -150,7 +150,94 @@ fn boundary_names() -> Vec<String> {
         v.push(format!("copy_file_{sz}"));
     }
     v.push("epoll_wait_zero_buf".to_string());
+    // objects of the WRONG kind: every descriptor-producing operation on something it is not meant for
+    for op in ["dir_open", "dir_iterate", "remove_dir_all", "file_open", "file_create", "fs_read", "fs_write", "copy_file_from", "copy_file_to",
+               "unix_connect", "unix_try_connect", "unix_bind"] {
+        for obj in ["file", "dir", "symlink_file", "symlink_dir", "dangling_symlink", "fifo", "socket"] {
+            if (op, obj) == ("fs_read", "fifo") {
+                continue; // reading a fifo to its end never finishes while a writer exists
+            }
+            v.push(format!("wrongkind_{op}_on_{obj}"));
+        }
+    }
     v
+}
+
+/// creates the object of the given kind inside the current directory and returns its (relative) path
+fn make_object(obj: &str) -> (&'static str, Box<dyn Any>) {
+    match obj {
+        "file" => {
+            std::fs::write("obj", b"some file content\n").unwrap();
+            ("obj", Box::new(()))
+        }
+        "dir" => {
+            std::fs::create_dir_all("obj/inner").unwrap();
+            std::fs::write("obj/inner/f", b"x").unwrap();
+            ("obj", Box::new(()))
+        }
+        "symlink_file" => {
+            std::fs::write("target", b"pointed-to file\n").unwrap();
+            std::os::unix::fs::symlink("target", "obj").unwrap();
+            ("obj", Box::new(()))
+        }
+        "symlink_dir" => {
+            std::fs::create_dir_all("target/inner").unwrap();
+            std::os::unix::fs::symlink("target", "obj").unwrap();
+            ("obj", Box::new(()))
+        }
+        "dangling_symlink" => {
+            std::os::unix::fs::symlink("nowhere", "obj").unwrap();
+            ("obj", Box::new(()))
+        }
+        "fifo" => {
+            let c = std::ffi::CString::new("obj").unwrap();
+            assert_eq!(0, unsafe { libc::mkfifo(c.as_ptr(), 0o600) });
+            // keep both ends open so that opening it for reading or writing does not block
+            let keep = std::fs::OpenOptions::new().read(true).write(true).open("obj").unwrap();
+            ("obj", Box::new(keep))
+        }
+        "socket" => {
+            let l = std::os::unix::net::UnixListener::bind("obj").unwrap();
+            ("obj", Box::new(l))
+        }
+        x => panic!("object kind {x}"),
+    }
+}
+
+fn setup_wrongkind(name: &str) -> Option<Scen> {
+    let rest = name.strip_prefix("wrongkind_")?;
+    let (op, obj) = rest.split_once("_on_")?;
+    let (path, bg) = make_object(obj);
+    let p = lit(path);
+    std::fs::write("other", b"another regular file\n").unwrap();
+    let other = lit("other");
+    let op = op.to_string();
+    Some(scen_bg(bg, move || match op.as_str() {
+        "dir_open" => Ret::from(Directory::open(p), |_| (vec![], false)),
+        "dir_iterate" => {
+            let d = match Directory::open(p) {
+                Ok(d) => d,
+                Err(e) => return Ret::err(e),
+            };
+            for e in d.read() {
+                if let Err(e) = e {
+                    return Ret::err(e);
+                }
+            }
+            Ret::ok(vec![], false, Box::new(d))
+        }
+        "remove_dir_all" => Ret::unit(tiny_std::fs::remove_dir_all(p)),
+        "file_open" => Ret::from(File::open(p), |f| (vec![f.as_raw_fd().value()], true)),
+        "file_create" => Ret::from(OpenOptions::new().create(true).write(true).truncate(true).open(p), |f| (vec![f.as_raw_fd().value()], true)),
+        "fs_read" => Ret::unit(tiny_std::fs::read(p)),
+        "fs_write" => Ret::unit(tiny_std::fs::write(p, b"overwrite")),
+        "copy_file_from" => Ret::from(tiny_std::fs::copy_file(p, lit("copy.out")), |f| (vec![f.as_raw_fd().value()], true)),
+        "copy_file_to" => Ret::from(tiny_std::fs::copy_file(other, p), |f| (vec![f.as_raw_fd().value()], true)),
+        "unix_connect" => Ret::from(UnixStream::connect(p), |s| (vec![s.as_raw_fd().value()], true)),
+        "unix_try_connect" => Ret::from(UnixStream::try_connect(p), |s| (s.iter().map(|s| s.as_raw_fd().value()).collect(), true)),
+        "unix_bind" => Ret::from(UnixListener::bind(p), |_| (vec![], false)),
+        x => panic!("operation {x}"),
+    }))
 }
 
 /// a client socket bound (with libc, exact sockaddr length) as the scenario says, connected to `listener`
@@ -276,6 +363,9 @@ fn setup_boundary(name: &str, root: &Path) -> Option<Scen> {
         } else {
             scen(move || Ret::from(tiny_std::fs::copy_file(src, dst), |f| (vec![f.as_raw_fd().value()], true)))
         });
+    }
+    if name.starts_with("wrongkind_") {
+        return setup_wrongkind(name);
     }
     if name == "epoll_wait_zero_buf" {
         return Some(scen(move || {
